@@ -40,6 +40,8 @@ struct Scn {
     /// number of tasks of each accepting side that wait in `accept_stream_channel` at the same time; with more than
     /// one, every task takes exactly one stream
     acceptors: usize,
+    /// stream_buffer_size of both sides (0 = the default): how many established streams wait for `accept_stream_channel`
+    accept_buf: usize,
 }
 
 fn opener_plan() -> EndPlan {
@@ -52,9 +54,9 @@ fn acceptor_plan() -> EndPlan {
 fn scenarios(thorough: bool) -> Vec<Scn> {
     let h255: Vec<u8> = (0..255u32).map(|i| 0x80 | (i as u8 & 0x7f)).collect();
     let mut v = vec![
-        Scn { acceptors: 1, name: "first draw is 0", rng: [vec![0, 1], vec![]], retries: 3, rwnd: [2, 3], reqs: vec![Req { tag: 1, side: 0, host: b"a".to_vec(), port: 1 }] },
+        Scn { acceptors: 1, accept_buf: 0, name: "first draw is 0", rng: [vec![0, 1], vec![]], retries: 3, rwnd: [2, 3], reqs: vec![Req { tag: 1, side: 0, host: b"a".to_vec(), port: 1 }] },
         Scn {
-            acceptors: 1,
+            acceptors: 1, accept_buf: 0,
             name: "draw equal to a live flow (two concurrent opens on A, one on B)",
             rng: [vec![1, 1, 2, 0, 3], vec![1, 2, 4]],
             retries: 3,
@@ -66,7 +68,7 @@ fn scenarios(thorough: bool) -> Vec<Scn> {
             ],
         },
         Scn {
-            acceptors: 1,
+            acceptors: 1, accept_buf: 0,
             name: "hosts and ports",
             rng: [vec![], vec![]],
             retries: 3,
@@ -77,10 +79,20 @@ fn scenarios(thorough: bool) -> Vec<Scn> {
                 Req { tag: 3, side: 1, host: vec![0x00, 0xff, b'/', b':'], port: 1 },
             ],
         },
+        // more requests at once than the accept queue holds; the application accepts one stream after the other
+        Scn {
+            acceptors: 1,
+            accept_buf: 1,
+            name: "four opens at once into an accept queue of one",
+            rng: [vec![], vec![]],
+            retries: 3,
+            rwnd: [2, 2],
+            reqs: (0..4u8).map(|i| Req { tag: i + 1, side: 0, host: vec![b'Q', i], port: 200 + u16::from(i) }).collect(),
+        },
         // a Connect's host has no length octet: it runs to the end of the frame and may be longer than the 255 octets
         // the Bind and Datagram layouts can carry
         Scn {
-            acceptors: 1,
+            acceptors: 1, accept_buf: 0,
             name: "hosts longer than 255 octets",
             rng: [vec![], vec![]],
             retries: 3,
@@ -94,7 +106,7 @@ fn scenarios(thorough: bool) -> Vec<Scn> {
     ];
     for retries in if thorough { vec![1usize, 2, 3] } else { vec![1usize, 3] } {
         v.push(Scn {
-            acceptors: 1,
+            acceptors: 1, accept_buf: 0,
             name: "both sides open at the same moment with the same id",
             rng: [vec![1, 2, 5], vec![1, 3, 6]],
             retries,
@@ -102,7 +114,7 @@ fn scenarios(thorough: bool) -> Vec<Scn> {
             reqs: vec![Req { tag: 1, side: 0, host: b"A".to_vec(), port: 10 }, Req { tag: 2, side: 1, host: b"B".to_vec(), port: 20 }],
         });
         v.push(Scn {
-            acceptors: 1,
+            acceptors: 1, accept_buf: 0,
             name: "same id twice in a row on both sides",
             rng: [vec![1, 2, 5], vec![1, 2, 6]],
             retries,
@@ -114,7 +126,7 @@ fn scenarios(thorough: bool) -> Vec<Scn> {
     // still has to reach one of them
     for n in if thorough { vec![2usize, 3] } else { vec![2usize] } {
         v.push(Scn {
-            acceptors: n,
+            acceptors: n, accept_buf: 0,
             name: if n == 2 { "two tasks waiting in accept_stream_channel, the peer opens two streams" } else { "three tasks waiting in accept_stream_channel, the peer opens three streams" },
             rng: [vec![], vec![]],
             retries: 3,
@@ -124,7 +136,7 @@ fn scenarios(thorough: bool) -> Vec<Scn> {
     }
     if thorough {
         v.push(Scn {
-            acceptors: 1,
+            acceptors: 1, accept_buf: 0,
             name: "two opens per side, colliding ids",
             rng: [vec![1, 2, 1, 3, 7], vec![2, 1, 4, 5, 8]],
             retries: 2,
@@ -141,8 +153,12 @@ fn scenarios(thorough: bool) -> Vec<Scn> {
 }
 
 fn exec_two(sc: &Scn, render: bool) -> RunOutput {
-    let a = SideCfg { opts: opts(sc.rwnd[0], 1).max_flow_id_retries(sc.retries), rng: sc.rng[0].clone() };
-    let b = SideCfg { opts: opts(sc.rwnd[1], 1).max_flow_id_retries(sc.retries), rng: sc.rng[1].clone() };
+    let mut a = SideCfg { opts: opts(sc.rwnd[0], 1).max_flow_id_retries(sc.retries), rng: sc.rng[0].clone() };
+    let mut b = SideCfg { opts: opts(sc.rwnd[1], 1).max_flow_id_retries(sc.retries), rng: sc.rng[1].clone() };
+    if sc.accept_buf > 0 {
+        a.opts = a.opts.stream_buffer_size(sc.accept_buf);
+        b.opts = b.opts.stream_buffer_size(sc.accept_buf);
+    }
     let mut w = World::two(UNBOUNDED_CAP, &a, &b);
     for side in 0..2 {
         let table: BTreeMap<(Vec<u8>, u16), (Tag, EndPlan)> = sc.reqs.iter().filter(|r| r.side != side).map(|r| ((r.host.clone(), r.port), (r.tag, acceptor_plan()))).collect();
@@ -562,7 +578,7 @@ pub fn run(args: &Args) -> Report {
             if with_b {
                 reqs.push(Req { tag: 3, side: 1, host: b"B".to_vec(), port: 3 });
             }
-            let sc = Scn { acceptors: 1, name: "enumerated draws", rng: [script.clone(), vec![1, 2]], retries: 3, rwnd: [2, 2], reqs };
+            let sc = Scn { acceptors: 1, accept_buf: 0, name: "enumerated draws", rng: [script.clone(), vec![1, 2]], retries: 3, rwnd: [2, 2], reqs };
             let label = format!("{} | retries=3 rngA={:?} rngB=[1, 2] requests={}", sc.name, sc.rng[0], sc.reqs.len());
             cases.push(Case { try_unbounded: false, max_k: if thorough { 2 } else { 1 }, label, exec: Box::new(move |r| exec_two(&sc, r)) });
         }
